@@ -79,7 +79,7 @@ Proof. exact conf_outputs. Qed.
 Print Assumptions c04_schedule_independent_outputs.
 
 (* (b) the net model of Sim.v (the model the implementation is compared with) refines the pool: for a
-   bench whose scripts are sends and queries (bench_plain), every run of the net model under every
+   bench whose scripts are sends, queries and scheduling requests (bench_plain), every run of the net model under every
    choice list is a schedule of the pool of its start state, logging exactly the picked invocations *)
 Theorem c04_net_run_is_pool_schedule :
   forall b, bench_plain b = true -> forall fuel ch s nd s' nd',
